@@ -138,6 +138,20 @@ def gen(tier, rng):
                                        "return static_cast<%s>(wrap<%s>(a));" % (fn, T),
                                        ["return (%s)a * %s;" % (fn, flit(fn, suf, e))], cfg=cfg,
                                        meta=dict(anchor="include/cnl/_impl/scaled/convert_operator.h (integer -> floating)")))
+        # elastic reps narrowing the exponent by k digits: C++ division toward zero by 2^k in the source rep, with k at and
+        # around the digit boundaries of the built-in type the divisor lives in (seeded change M-C04-6: the divisor 1 << 31
+        # built in a 32-bit signed type)
+        if cfg == "clang":
+            for (E, ra, ks) in (("elastic_integer<40>", "long", [30, 31, 32, 33]), ("elastic_integer<40, unsigned>", "unsigned long", [31, 32, 33]),
+                                ("elastic_integer<20>", "int", [15, 16, 19]), ("elastic_integer<62>", "long", [31, 61])):
+                dg = int(E.split("<")[1].split(",")[0].rstrip(">"))
+                for k in ks:
+                    TS, TD = "scaled_integer<%s, power<%d>>" % (E, -k), "scaled_integer<%s, power<0>>" % E
+                    pre = ["a <= %d" % (2 ** dg - 1)] + (["a >= %d" % -(2 ** dg - 1)] if "unsigned" not in E else [])
+                    rr = "decltype(unwrap(std::declval<%s>()))" % TD
+                    obs.append(kern.Ob("clang/int-int/elastic/%s/drop%d" % (E, k), rr, [(ra, "a")], "return unwrap(static_cast<%s>(wrap<%s>(a)));" % (TD, TS),
+                                       ["return (%s)(a / ((%s)1 << %d));" % (rr, ra, k)], pre=pre, cfg=cfg,
+                                       meta=dict(anchor="include/cnl/_impl/elastic_integer/scale.h (negative shift)")))
         # exact inverses
         nests = ["scaled_integer<%s, power<-7>>", "overflow_integer<%s, saturated_overflow_tag>", "rounding_integer<%s, nearest_rounding_tag>",
                  "scaled_integer<overflow_integer<%s, native_overflow_tag>, power<3>>", "scaled_integer<rounding_integer<overflow_integer<%s, cnl::_impl::throwing_overflow_tag>, neg_inf_rounding_tag>, power<-1>>",
